@@ -167,7 +167,9 @@ def build():
         e.rewrite_re('R11', r'AB::Expr::ONE', 'R::one()')
         e.rewrite_re('R11', r'AB::Expr::ZERO', 'R::zero()')
         e.rewrite_re('R11', r'AB::Expr::TWO', 'R::two()')
+        e.rewrite_re('R11', r'AB::(Expr|Var)\b(?!::)', 'R')
         e.rewrite_re('R11', r'\.into\(\)', '')
+        e.rewrite_re('R6', r'(\w+) \+= ([^;]+);', r'\1 = \1 + \2;')
         e.rewrite_re('R11', r'\.clone\(\)', '')
         ungate_chains(e)
         W = 'Win { lo: iv(local_out@), ni: iv(next_in@), s: iv(next_preprocessed@), lsum: local.mmcs_index_sum.v@, nsum: next.mmcs_index_sum.v@, nbit: next_bit.v@, trans: old(builder).trans@, d: D as int, rate: RATE_EXT as int, width: WIDTH_EXT as int }'
@@ -192,12 +194,34 @@ def build():
             ('for i in 0..RATE_EXT', 'i', DONE2 + ' && w.merkle_ok({n})', 'w.c_left({v}, {dd}) && w.c_right({v}, {dd})', 'gate_left_i.v@ == w.merkle_help(i as int) * (1 - w.nbit) && gate_right_i.v@ == w.merkle_help(i as int) * w.nbit && i < RATE_EXT', 2),
             ('for slot in RATE_EXT..WIDTH_EXT', 'slot', DONE3 + ' && w.start_ok({n})', 'w.c_start({v}, {dd})', 'next_new_start.v@ == w.ns() && not_merkle.v@ == 1 - w.mk() && cap_tag.v@ == w.tagv() && RATE_EXT <= slot < WIDTH_EXT', 3),
         ]
+        # a contract is attached only to a loop nest that is still there in this shape (outer head + inner `for d in 0..D`); a nest that was
+        # rewritten keeps no loop contract and the function's postcondition decides (an obligation that held on the unchanged tree)
+        def _nest_present(head):
+            k = e.body.find(head + ' {')
+            if k < 0:
+                return False
+            o = e.body.index('{', k)
+            return 'for d in 0..D {' in e.body[o:match_brace(e.body, o)]
+        specs = [sp for sp in specs if _nest_present(sp[0])]
+        # the inner loops of the present nests, in source order: ordinal among all `for d in 0..D` loops
+        _all_inner = [m.start() for m in re.finditer(r'for d in 0\.\.D \{', e.body)]
+        def _inner_ordinal(head):
+            k = e.body.find(head + ' {')
+            o = e.body.index('{', k)
+            first = e.body.index('for d in 0..D {', o)
+            return _all_inner.index(first)
+        ORD = {sp[5]: _inner_ordinal(sp[0]) for sp in specs}
+        BYORD = {v_: k_ for k_, v_ in ORD.items()}
+        SPEC_OF = {sp[5]: sp for sp in specs}
         # insertions first (anchors on bare loop heads), loop contracts afterwards
         cnt = [0]
 
         def inner_facts(mm):
-            v = specs[cnt[0]][1]
+            k_ = cnt[0]
             cnt[0] += 1
+            if k_ not in BYORD:
+                return mm.group(0)
+            v = SPEC_OF[BYORD[k_]][1]
             extra = f' assert((RATE_EXT + {v}) * D + d < WIDTH_EXT * D) by (nonlinear_arith) requires RATE_EXT + {v} < WIDTH_EXT, 0 <= d < D;' if v == 'i' else ''
             return (f'for d in 0..D {{ proof {{ assert({v} * D + d < WIDTH_EXT * D) by (nonlinear_arith) requires 0 <= {v} < WIDTH_EXT, 0 <= d < D;'
                     f' assert({v} * D + d < {v} * D + D);{extra} }}')
@@ -210,9 +234,9 @@ def build():
         LO = {0: '0', 1: 'w.rate', 2: '0', 3: 'w.rate'}
         # inner bodies: snapshot before the gated call(s), proof after them
         inner_heads = [m.start() for m in re.finditer(r'for d in 0\.\.D \{', e.body)]
-        for nth in (3, 2, 1, 0):
-            v = specs[nth][1]
-            st = inner_heads[nth]
+        for nth in sorted(SPEC_OF, key=lambda q: -ORD[q]):
+            v = SPEC_OF[nth][1]
+            st = inner_heads[ORD[nth]]
             open_ = e.body.index('{', st)
             close = match_brace(e.body, open_)
             conj = ' && '.join(x.format(v=f'{v} as int', dd='d as int') for x in ELEMS[nth])
@@ -241,9 +265,9 @@ def build():
                         }}
                     }}
                 }}''')
-        for nth in (3, 2, 1, 0):
-            head, v, acc, elem, extra, _ = specs[nth]
-            e.loop('for d in 0..D', nth=nth, invariants=[
+        for nth in sorted(SPEC_OF, key=lambda q: -ORD[q]):
+            head, v, acc, elem, extra, _ = SPEC_OF[nth]
+            e.loop('for d in 0..D', nth=ORD[nth], invariants=[
                 ('ctx', CTX + f' && {v} * D + D <= WIDTH_EXT * D'),
                 ('columns_of_this_limb_so_far', 'builder.ok@ == (' + acc.format(n=f'{v} as int') + ' && forall|dd: int| 0 <= dd < d ==> ' + ' && '.join('#[trigger] ' + x.format(v=f'{v} as int', dd='dd') for x in ELEMS[nth]) + ')'),
             ])
